@@ -109,12 +109,12 @@ elim: n => [|n IH] H //.
 rewrite -addn1 iotaD filter_cat count_cat /= add0n.
 have H' : forall i j, i <= j -> j < n -> p j -> p i.
   by move=> i j hij hj; apply: H => //; exact: ltnW.
-case pn: (p n); last first. Show. by rewrite cats0 addn0 IH.
+case pn: (p n); last by rewrite cats0 !addn0 IH.
 have hall : all p (iota 0 n).
   apply/allP => i; rewrite mem_iota add0n /= => hi.
   by apply: (H i n) => //; exact: ltnW.
 rewrite (all_filterP hall); move: hall; rewrite all_count size_iota => /eqP->.
-by rewrite -[iota 0 n ++ _]/(iota 0 n ++ iota (0 + n) 1) -iotaD.
+by rewrite addn0 -[iota 0 n ++ _]/(iota 0 n ++ iota (0 + n) 1) -iotaD.
 Qed.
 
 Section Structure.
@@ -165,7 +165,7 @@ case: c => [|c] /=.
   by rewrite /kept size_filter (@eq_count _ _ pred0) ?count_pred0.
 rewrite activeE count_filter size_filter; apply: eq_in_count => i.
 rewrite mem_iota add0n /= => hi; rewrite mem_active hi /= ltnS.
-case h1: (f i <= c) => /=; last by rewrite andbF.
+case h1: (f i <= c) => /=; last by rewrite ?andbF.
 rewrite (leq_trans h1 (leqnSn c)) /=.
 by case h2: (c < l i); rewrite ?andbF //= (ltnW h2).
 Qed.
